@@ -2,7 +2,7 @@
 
 P (proof): additivity and oddness of each wrapper in its excitation for B and H on the generic row —
    W(e1 + e2) = W(e1) + W(e2),  W(-e) = -W(e)  (three row-generic runs of the real wrapper; linear real arithmetic; the
-   special-case masks `excitation == 0` are shown consistent with linearity) — for Cuboid, Sphere, Triangle, Tetrahedron,
+   special-case masks `excitation == 0` are shown consistent with linearity) — for Cuboid, Sphere, Triangle, Tetrahedron, TriangularMesh (regular branch, in_out inside/outside),
    Dipole, Circle, Polyline, with the core stubs carrying the ASSUMED contract of linearity in their excitation argument.
    Together with positive homogeneity of degree 1 (C12's excitation grading) this is linearity over the reals.
    Cylinder / CylinderSegment re-parametrise the polarization through arctan2/sqrt before the core: not linear at stub
@@ -30,6 +30,8 @@ EXC = {  # wrapper -> (excitation argument of the wrapper, {stub callee: (excita
     "Sphere": ("polarization", {}),
     "Triangle": ("polarization", {"triangle_Bfield": ("polarizations", 3, False)}),
     "Tetrahedron": ("polarization", {"triangle_Bfield": ("polarizations", 3, False)}),
+    "TriangularMesh(in_out=inside)": ("polarization", {"triangle_Bfield": ("polarizations", 3, False)}),
+    "TriangularMesh(in_out=outside)": ("polarization", {"triangle_Bfield": ("polarizations", 3, False)}),
     "Dipole": ("moment", {"dipole_Hfield": ("moments", 3, False)}),
     "Circle": ("current", {"current_circle_Hfield": ("i0", 3, True)}),
     "Polyline": ("current", {"current_polyline_Hfield": ("currents", 3, False)}),
@@ -124,7 +126,7 @@ def linearity(rep, name):
         import magpylib
 
         conc = {"MU0": float(magpylib.mu_0)}  # linear arithmetic: the module constant itself (symbolic mu_0 is C02's business)
-        if name == "Tetrahedron":
+        if name == "Tetrahedron" or name.startswith("TriangularMesh"):
             tri = WRAPPERS["Triangle"]
             ns = sp.namespace({"BHJM_triangle": tri.namespace(dict(stubs, **conc))["BHJM_triangle"], **conc})
         else:
@@ -193,6 +195,8 @@ def native_linearity(seed, classes=None):
             if trial == 2:
                 e1[:2] = 0
             al, be = rng.normal(size=2)
+            if trial == 0:
+                al, be = 1e-10, 3e-9  # the property quantifies over excitation magnitudes 1e-12 .. 1e12
             for fld in "BH":
                 g = getattr(magpy, "get" + fld)
                 with np.errstate(all="ignore"):
